@@ -31,7 +31,7 @@ Code the property is anchored in: %(files)s
 
 ## What to produce
 
-Produce up to TWO different, realistic source changes (the kind of bug a maintainer could plausibly introduce in a refactoring, optimisation or feature patch), each of which BREAKS this property while the project still compiles and `make check` still passes (all 89 assertions). The change must need something SPECIFIC to manifest - a particular interleaving or order of events, a fault/timeout at a particular point, a multi-step sequence, an unusual but legal input, a boundary value, or two cooperating code sites that each look fine alone - NOT something ordinary use would expose at once, and preferably something a randomized tester that throws random event sequences / random inputs at the code would be unlikely to reach without being built for it (a rare boundary value, a long or oddly shaped input, a three-step history, a dependence on names or ordering, an interaction with a reload or a timer, a rarely used option or shared helper in src/*.c). Do not modify files under tests/. Keep each change small (a few lines).
+Produce up to TWO different, realistic source changes (the kind of bug a maintainer could plausibly introduce in a refactoring, optimisation or feature patch), each of which BREAKS this property while the project still compiles and `make check` still passes (all 89 assertions). The change must need something SPECIFIC to manifest - a particular interleaving or order of events, a fault/timeout at a particular point, a multi-step sequence, an unusual but legal input, a boundary value, or two cooperating code sites that each look fine alone - NOT something ordinary use would expose at once, and preferably something a randomized tester that throws random event sequences / random inputs at the code would be unlikely to reach without being built for it (a rare boundary value, a long or oddly shaped input, a three-step history, a dependence on names or ordering, an interaction with a reload or a timer, a rarely used option or shared helper in src/*.c). If at all possible, make ONE of your two changes in shared infrastructure (src/config.c, src/set.c, src/common.c, src/log.c, src/bitset.c, src/module.c, src/main.c, or a helper in modules/iauth_misc.c / modules/iauth_core.c that other code relies on) rather than in the function the property most obviously lives in, so that the property breaks indirectly. Do not modify files under tests/. Keep each change small (a few lines).
 
 Earlier rounds already produced changes that manifest under the following conditions; do NOT repeat those ideas, find different code sites and different triggering conditions:
 %(prior)s
